@@ -240,10 +240,10 @@ class SuperSpeedStreamInEndpoint(Elaboratable):
                 packet_complete = (write_fill_count + 4 >= self._max_packet_size)
                 will_end_packet = packet_complete | in_stream.last
 
-                with m.If(in_stream.valid & will_end_packet):
+                with m.If((in_stream.valid & will_end_packet).any() | write_stream_ended):
 
                     # If we've just finished a packet, we now have data we can send!
-                    with m.If(packet_complete | in_stream.last):
+                    with m.If(packet_complete | in_stream.last | write_stream_ended):
                         m.d.ss += [
 
                             # We're now ready to take the data we've captured and _transmit_ it.
